@@ -229,6 +229,9 @@ func (vc *FnVC) u256Method(in *ssa.Call, m string, args []ssa.Value) bool {
 	case "Cmp":
 		x, y := get(0), get(1)
 		vc.setRes(in, intT(vc.defineNamed("cmp", "Int", fmt.Sprintf("(ite (< %s %s) (- 1) (ite (= %s %s) 0 1))", x, y, x, y))))
+	case "CmpBig":
+		x, y := get(0), vc.cellGet("BigVal", a(1))
+		vc.setRes(in, intT(vc.defineNamed("cmp", "Int", fmt.Sprintf("(ite (< %s %s) (- 1) (ite (= %s %s) 0 1))", x, y, x, y))))
 	case "CmpUint64":
 		x, y := get(0), a(1)
 		vc.setRes(in, intT(vc.defineNamed("cmp", "Int", fmt.Sprintf("(ite (< %s %s) (- 1) (ite (= %s %s) 0 1))", x, y, x, y))))
